@@ -168,8 +168,8 @@ Print Assumptions C02_tidy_remove_preserves_trace_stage2.
 (* the same with the report fix_unused_and_missing_imports really computes (parse_docstrings=True: the doctest examples
    are scanned after the module, then the {brace} identifiers are looked up, then the module scope's unused imports are
    reported) and the trace that includes the doctest examples.  The docstrings may stand anywhere a string statement may
-   (module, def bodies, after assignments); every doctest example is a load-only expression statement
-   (Fragment.dx_docs: names, attribute chains, operators / calls); {brace} identifiers are unrestricted. *)
+   (module, def bodies, after assignments); every doctest example is a load-only expression statement or an
+   assignment of such an expression to names (Fragment.dx_docs: names, attribute chains, operators / calls); {brace} identifiers are unrestricted. *)
 Theorem C02_unused_sound_doc_stage2 : forall bi ns p, u2_block p = true -> dx_docs p = true -> star_free bi ns = true ->
   imports_once bi ns p = true -> NoDup (imp_events (bsrcs_block false p)) ->
   forall l i, In (l, i) (snd (finder_doc bi ns p)) ->
@@ -286,6 +286,16 @@ Definition P_doc : program :=
   [SDoc 1 [SExpr 2 (ELoad 151 [152])] [153];
    SImport 4 [([154], Some 151)]; SImport 5 [([155], Some 156)]; SImport 6 [([157], Some 153)];
    SDef 7 158 [] P0 None [SDoc 8 [SExpr 9 (EOp [ELoad 159 []; ELoad 151 []])] []]].
+(* an assignment example: `>>> t = d.x` (line 2) then `>>> t.y` (line 3, reads the example's own t): the import d (line 5) is
+   kept because of line 2; line 3 resolves to the assignment, not to an import *)
+Definition P_doc_assign : program :=
+  [SDoc 1 [SAssign 2 [TName 165] (ELoad 166 [152]); SExpr 3 (ELoad 165 [167])] []; SImport 5 [([168], Some 166)]; SImport 6 [([169], Some 165)]].
+Example C02_nonvacuous_doc_assign :
+  u2_block P_doc_assign = true /\ dx_docs P_doc_assign = true /\ imports_once [] [[]] P_doc_assign = true /\
+  In (2%nat, 166, Bound (BImp 5 ([168], [166]))) (pysem_doc [] [[]] P_doc_assign) /\
+  In (3%nat, 165, Bound BOther) (pysem_doc [] [[]] P_doc_assign) /\
+  snd (finder_doc [] [[]] P_doc_assign) = nil.
+Proof. vm_compute. repeat split; auto. Qed.
 Example C02_nonvacuous_doc :
   u2_block P_doc = true /\ dx_docs P_doc = true /\ imports_once [] [[]] P_doc = true /\
   snd (finder [] [[]] true P_doc) = [(4%nat, ([154], [151])); (5%nat, ([155], [156])); (6%nat, ([157], [153]))] /\
